@@ -96,6 +96,7 @@ reg = {
         "h_types.rs": "src/types.rs",
         "h_complex_types.rs": "src/complex_types.rs",
         "h_btree_base.rs": "src/tree_store/btree_base.rs",
+        "h_buddy.rs": "src/tree_store/page_store/buddy_allocator.rs",
     },
     # bounded Kani twins of Verus obligations: run only after a Verus refutation, to look for a concrete failing input
     "twins": {
@@ -204,10 +205,11 @@ P["C09"] = {
 }
 P["C11"] = {
     "level": "proof",
-    "verus": [{"unit": "alloc", "functions": ["BuddyAllocator::record_alloc", "BuddyAllocator::record_alloc_inner", "BS::*", "lemma_*", "Allocators::new", "RegionTracker::new", "BuddyAllocator::new"]}],
+    "verus": [{"unit": "alloc", "functions": ["BuddyAllocator::record_alloc", "BuddyAllocator::record_alloc_inner", "BS::*", "lemma_*", "Allocators::new", "RegionTracker::new", "BuddyAllocator::new",
+                                              "Allocators::resize_to", "Allocators::lemma_*", "DatabaseLayout::recalculate", "DatabaseHeader::layout", "DatabaseHeader::set_layout"]}],
     "kani": [K["C11-R3"]],
-    "explanation": "Kernel: rebuild = reset + one record_alloc per reachable page; record_alloc marks exactly the named block (true iff the block lay inside a free block, which it then no longer does, every other page keeps its state) or refuses with the allocator unchanged, I1 and I2 preserved; the allocator-state key codec orders Region(i) by i and before the tracker and the transaction id, which the snapshot loader's range scans rely on.",
-    "not_decided": "which pages ARE reachable; is_valid_allocator_state's staleness comparison (needs a B-tree); resize_to after load; histories and crash points",
+    "explanation": "Kernel: rebuild = reset + one record_alloc per reachable page; record_alloc marks exactly the named block (true iff the block lay inside a free block, which it then no longer does, every other page keeps its state) or refuses with the allocator unchanged, I1 and I2 preserved; (R4) Allocators::resize_to - the reconciliation of a loaded allocator state with the layout of the file being opened - gives every region the size the layout says, keeps wf and TRK, marks dropped regions full and leaves unchanged regions untouched (against assumed contracts of the resize family); the allocator-state key codec orders Region(i) by i and before the tracker and the transaction id, which the snapshot loader's range scans rely on.",
+    "not_decided": "which pages ARE reachable; is_valid_allocator_state's staleness comparison (needs a B-tree); the tracker's persistent-savepoint pins (BTreeMap); histories and crash points",
 }
 P["C15"] = {
     "level": "proof",
